@@ -22,13 +22,17 @@ CLAIMED = {
         "counter-clockwise, others clockwise; per polygon the signed loop areas sum to the area of its component's cells "
         "(integers, 1e-4 of a mean cell). The library runs on the allocator seam: a successful call may retain blocks, "
         "destroyLinkedMultiPolygon must free all of them, an error return (H3_NULL / invalid cell inside the set, all base "
-        "cells minus two) must leave none, no double or foreign free. Inputs: 420 (6000) sets at res 0-15: disks, disks "
+        "cells minus two) must leave none, no double or foreign free. Inputs: 430 (6100) sets at res 0-15: belts up to 340 degrees wide at res 0-2, disks, disks "
         "minus random cells, rings, islands in holes, nested rings with extra components, sparse sets, sub-trees, paths; "
         "around pentagons, on the antimeridian and icosahedron edges; shuffled.",
         "Vertex ids (1e-12 rad clustering, C08), orientation signs and areas are numeric projections of the harness (long "
-        "double); sets reaching beyond 83 degrees of latitude or 1 rad of their mean direction are outside the property's "
-        "domain and judged on the allocator contract only. Allocation *failure* inside these functions is not part of C16 "
-        "(they assert). Found and fixed: vertex hash separated coinciding vertices at coarse resolutions (known_findings.json).",
+        "double); sets that contain a pole's cell or reach beyond 83 degrees of latitude, wrap round the globe (no free "
+        "meridian) or cover more than 0.9 of a hemisphere are outside the judged domain (allocator contract only). An error "
+        "return on a valid set inside the domain is a violation. Allocation *failure* inside these functions is not part of C16 "
+        "(they assert). H3LoopNorm.tla transcribes the antimeridian normalisation of the loop algorithms (bboxFrom, pointInside, "
+        "isClockwise) and is replayed into the real functions (GeoLoop and LinkedGeoLoop). Found and fixed: vertex hash separated "
+        "coinciding vertices at coarse resolutions. Open (KNOWN-FINDING, exit 0): sets with a hole whose outline crosses both "
+        "the antimeridian and the prime meridian fail with E_FAILED (known_findings.json, DESIGN 11.3).",
         "DESIGN.md 3.9, 5/C16, 11"),
     "C07": (
         "TLC: set-level semantics of centre containment (H3Polygon.tla) + TLC trace validation of both fill algorithms against independent three-valued point-in-polygon observations, candidate set closed under the spec's neighbour graph + state-machine models of the hierarchical iterator, the bounding-box logic and the legacy flood fill",
